@@ -7,14 +7,18 @@
 (*   invocation  [iss, sub, aud, cmd, arg, exp, hook]                      *)
 (*               aud = "None" when absent; exp = -1 when absent;           *)
 (*               arg is a point of the argument space ArgPoints;           *)
-(*               hook in {"none","id","c0","c1","c2"}: which argument hook *)
-(*               ExecutionAllowedWithArgsHook is given (cK = constant K)   *)
+(*               hook in {"none","id","c0","c1","c2","empty"}: which       *)
+(*               argument hook ExecutionAllowedWithArgsHook is given       *)
+(*               (cK returns the arguments of point K, "empty" returns an  *)
+(*               empty argument map = point 3)                             *)
 (*   link        [missing, iss, aud, sub, cmd, pol, nbf, exp]              *)
 (*               missing = TRUE: the CID cannot be loaded;                 *)
 (*               sub = "Undef" for a powerline delegation;                 *)
 (*               pol = sequence of statements, a statement being its       *)
-(*               acceptance vector over ArgPoints = 0..2 (a tuple of three *)
-(*               booleans: st[p+1] iff point p satisfies the statement);   *)
+(*               acceptance vector over the argument points 0..3 (a tuple  *)
+(*               of four booleans: st[p+1] iff point p satisfies the       *)
+(*               statement; point 3 is the empty argument map, which only  *)
+(*               a hook can produce);                                      *)
 (*               nbf/exp = -1 when absent                                  *)
 (*   links[1] is the proof nearest to the invoker, links[n] the root.      *)
 (*   Commands are texts (sequences of characters), see CommandOps.         *)
@@ -58,6 +62,7 @@ HookArg(inv) == CASE inv.hook \in {"none", "id"} -> inv.arg
                   [] inv.hook = "c0" -> 0
                   [] inv.hook = "c1" -> 1
                   [] inv.hook = "c2" -> 2
+                  [] inv.hook = "empty" -> 3
 
 \* A link's own policy accepts the argument point (every statement).
 \* (Trace events carry the per-link answer of the real matcher as polOK instead of pol.)
@@ -209,7 +214,7 @@ AudIrrelevant ==
 \* chain at the invoker's end (a re-delegation by the former invoker), never turns a denied
 \* invocation into an allowed one.
 MonotoneStatement ==
-  Done => \A k \in 1..Len(links), st \in [1..3 -> BOOLEAN] :
+  Done => \A k \in 1..Len(links), st \in [1..4 -> BOOLEAN] :
             links[k].missing \/
             (Allowed(inv, [links EXCEPT ![k].pol = Append(links[k].pol, st)], now) => IsAllowed)
 
